@@ -23,6 +23,9 @@ type Frame struct {
 	FPort    uint8
 	FRMCmds  []Cmd  // FPort == 0
 	AppBytes []byte // FPort > 0
+	// EmptyElem: a sender may model "no application bytes" as one empty
+	// DataPayload element instead of no element (same frame on the wire)
+	EmptyElem bool
 }
 
 func (f Frame) Uplink() bool { return f.MType == 2 || f.MType == 4 }
@@ -128,9 +131,13 @@ func GenFrame(r *sim.Rand, uplink bool, devAddr [4]byte, fcnt uint32, g CmdGen, 
 		}
 		f.FRMCmds = g.GenCmds(r, n, 64)
 	case shape == 4:
-		// port without payload
+		// port without payload (optionally with FOpts)
 		f.HasPort = true
 		f.FPort = uint8(1 + r.Intn(255))
+		if r.Intn(2) == 0 {
+			f.FOpts = g.GenCmds(r, 1+r.Intn(15), 8)
+		}
+		f.EmptyElem = r.Intn(2) == 0
 	default:
 		// application payload, optionally with FOpts (MACPayload stays <= maxPayload+8)
 		f.HasPort = true
@@ -189,6 +196,8 @@ func (f Frame) ToLib() *lorawan.PHYPayload {
 			}
 		} else if len(f.AppBytes) > 0 {
 			mp.FRMPayload = []lorawan.Payload{&lorawan.DataPayload{Bytes: append([]byte(nil), f.AppBytes...)}}
+		} else if f.EmptyElem {
+			mp.FRMPayload = []lorawan.Payload{&lorawan.DataPayload{}}
 		}
 	}
 	return &lorawan.PHYPayload{
